@@ -104,16 +104,19 @@ Definition stmt_bound_continue : Prop :=
   forall SS (sch : scheduler SS) n fuel main objs st w st' out, Run sch (ContinueAfter n) fuel main objs st w st' out ->
   out <> OStepBound.
 
-(* executions that stay below the bound are unaffected by it (events compared without their ghost component) *)
+(* executions that need no more than n steps in total are unaffected by the bound n: same world, same outcome *)
 Definition erase (ev : event) : event :=
   match ev with EvDecision _ off cur y ch => EvDecision init_exec off cur y ch | _ => ev end.
 Definition stmt_bound_unaffected : Prop :=
   forall SS (sch : scheduler SS) ms n fuel main objs st w st' out, Run sch MSNone fuel main objs st w st' out ->
   out <> OFuel -> bound_of ms = Some n ->
-  (forall pre off cur y ch, In (EvDecision pre off cur y ch) (w_trace w) -> measure pre < n) ->
-  measure (w_e w) < n ->
-  exists w2, run_exec sch ms fuel main objs st = (w2, st', out)
-             /\ map erase (w_trace w2) = map erase (w_trace w) /\ w_e w2 = w_e w /\ w_s w2 = w_s w.
+  length (recorded (w_e w)) <= n ->
+  run_exec sch ms fuel main objs st = (w, st', out).
+
+(* no execution ever performs more than n steps (decisions plus random draws since the last reset_step_count) *)
+Definition stmt_bound_total : Prop :=
+  forall SS (sch : scheduler SS) ms fuel main objs st w st' out n, Run sch ms fuel main objs st w st' out ->
+  bound_of ms = Some n -> measure (w_e w) <= n.
 
 (* ---------------- C01 ---------------- *)
 (* every task the scheduler answered was among the offered ones (true of every run under a `sane` scheduler) *)
